@@ -1,12 +1,15 @@
 //go:build verif
 
 // wiredrv exercises the real wire codec (internal/dnsmsg) and records each call:
-//   unpack  {in, ok, msg}                 dnsmsg.UnpackMsg on arbitrary bytes
-//   pack    {msg, compress, size, wire}   Msg.Pack on a message built from an abstract description
+//
+//	unpack  {in, ok, msg}                 dnsmsg.UnpackMsg on arbitrary bytes
+//	pack    {msg, compress, size, wire}   Msg.Pack on a message built from an abstract description
+//
 // A panic or a stall of the code under test is recorded as crash / hang.
 package main
 
 import (
+	"bytes"
 	"encoding/binary"
 	"encoding/json"
 	"flag"
@@ -17,7 +20,9 @@ import (
 	"time"
 
 	"github.com/IrineSistiana/mosproxy/internal/dnsmsg"
+	"github.com/IrineSistiana/mosproxy/internal/dnsutils"
 	"github.com/IrineSistiana/mosproxy/internal/pool"
+	"github.com/IrineSistiana/mosproxy/internal/verifhook"
 	"github.com/IrineSistiana/mosproxy/internal/zzverif/vtrace"
 	"github.com/miekg/dns"
 )
@@ -262,6 +267,32 @@ func doUnpack(in []byte) *dnsmsg.Msg {
 	}
 	tr.Emit("unpack", "in", vtrace.Bytes(in), "ok", true, "msg", msgAbs(m))
 	return m
+}
+
+// doUnpackVia decodes `in` through the transports' readers (one datagram / one length-prefixed frame). What
+// comes back must be what the decoder makes of exactly these octets - nothing that was left in a buffer.
+func doUnpackVia(in []byte, tcp bool) {
+	var m *dnsmsg.Msg
+	var err error
+	ok := supervised("unpack", in, func() {
+		if tcp {
+			f := make([]byte, 2+len(in))
+			binary.BigEndian.PutUint16(f, uint16(len(in)))
+			copy(f[2:], in)
+			m, _, err = dnsutils.ReadMsgFromTCP(bytes.NewReader(f))
+		} else {
+			m, _, err = dnsutils.ReadMsgFromUDP(bytes.NewReader(in), 4096)
+		}
+	})
+	if !ok {
+		return
+	}
+	if err != nil {
+		tr.Emit("unpack", "in", vtrace.Bytes(in), "ok", false)
+		return
+	}
+	tr.Emit("unpack", "in", vtrace.Bytes(in), "ok", true, "msg", msgAbs(m))
+	dnsmsg.ReleaseMsg(m)
 }
 
 // doPack packs m (compress, size limit) and records the abstract message as it was BEFORE packing.
@@ -616,12 +647,18 @@ func main() {
 	names := flag.String("names", "", "TLC-enumerated name-decoder inputs (json array of byte arrays)")
 	gen := flag.Int("gen", 0, "random valid wire images (decode, then re-encode both ways)")
 	mal := flag.Int("mal", 0, "mutated wire images (decode only)")
+	ownPath := flag.String("own", "", "ownership trace (pool hook events)")
 	big := flag.Int("big", 0, "messages larger than 16 KiB with late names reused")
 	lim := flag.Int("lim", 0, "size-limited packs")
 	flag.Parse()
 	rng = rand.New(rand.NewSource(vtrace.Seed()))
 	tr = vtrace.Open(*out)
 	defer tr.Close()
+	if *ownPath != "" { // anomalies of the buffer pool (double release, release of a foreign slice, ...)
+		own := vtrace.NewOwn(*ownPath, 64)
+		defer own.T.Close()
+		verifhook.SetSink(func(name string, args []any) { own.Handle(name, args) })
+	}
 
 	if *stim != "" {
 		raw, _ := os.ReadFile(*stim)
@@ -687,6 +724,9 @@ func main() {
 		}
 		if m := doUnpack(w); m != nil {
 			dnsmsg.ReleaseMsg(m)
+		}
+		if i%4 == 1 && len(w) > 0 && len(w) <= 4096 {
+			doUnpackVia(w, i%8 == 1)
 		}
 	}
 	for i := 0; i < *lim; i++ {
